@@ -324,7 +324,10 @@ def design_flat_parent(r, name):
     if use_vars:
         # an inner attribute must stay the first thing in the body, in front of the `vars` bindings
         ia = ", inner_attribute(allow(unused_variables))" if r.random() < 0.5 else ""
-        item = f"#[{pre}from(A{err})] #[{pre}into(A{err} | vars(v0: {{ 5 }}, v1: {{ v0 * 2 }}){ia})] #[{pre}into_existing(A{err} | vars(v0: {{ 5 }}, v1: {{ v0 * 2 }}){ia})] #[ghosts(g: {{ v1 + 1 }})] pub struct S {{ " + ", ".join(src for _, src in fields) + " }"
+        # each binding is evaluated exactly once per conversion: `five()` counts its calls
+        m.types.append("pub static CALLS: std::sync::atomic::AtomicI64 = std::sync::atomic::AtomicI64::new(0);")
+        m.types.append("pub fn five() -> i64 { CALLS.fetch_add(1, std::sync::atomic::Ordering::SeqCst); 5 }")
+        item = f"#[{pre}from(A{err})] #[{pre}into(A{err} | vars(v0: {{ five() }}, v1: {{ v0 * 2 }}){ia})] #[{pre}into_existing(A{err} | vars(v0: {{ five() }}, v1: {{ v0 * 2 }}){ia})] #[ghosts(g: {{ v1 + 1 }})] pub struct S {{ " + ", ".join(src for _, src in fields) + " }"
     else:
         ia = " | inner_attribute(allow(unused_variables))" if r.random() < 0.4 else ""
         fa = " | attribute(inline)" if r.random() < 0.3 else ""
@@ -362,6 +365,8 @@ def design_flat_parent(r, name):
         m.tests.append(("into_ref", f'let s = {s_lit}; let r: A = (&s).into(); println!("{name} into_ref {{:?}}", r);', dbg(ea)))
         m.tests.append(("existing_owned", f'let s = {s_lit}; let mut o = {lit(pre_exist)}; s.into_existing(&mut o); println!("{name} existing_owned {{:?}}", o);', dbg(ea)))
         m.tests.append(("existing_ref", f'let s = {s_lit}; let mut o = {lit(pre_exist)}; (&s).into_existing(&mut o); println!("{name} existing_ref {{:?}}", o);', dbg(ea)))
+    if use_vars:
+        m.tests.append(("vars_once", f'println!("{name} vars_once {{}}", CALLS.load(std::sync::atomic::Ordering::SeqCst));', "4"))
     return m
 
 
